@@ -1753,6 +1753,7 @@ class Compiler:
         self._macros.append(node.extend)
 
         callbacks = []
+        cleanup = []
         for slot in node.slots:
             key = "__slot_%s" % mangle(slot.name)
             fun = "__fill_%s" % mangle(slot.name)
@@ -1807,6 +1808,14 @@ class Compiler:
 
             callbacks.extend(assignment)
 
+            # A filler that the macro did not use (it defines no such
+            # slot) must not be left behind for a later macro.
+            cleanup += template(
+                "try: econtext[KEY].remove(NAME)\n"
+                "except: pass",
+                KEY=key, NAME=fun,
+            )
+
         assert self._macros.pop() == node.extend
 
         assignment = self._engine(node.expression, store("__macro"))
@@ -1820,7 +1829,8 @@ class Compiler:
                 "__m(__stream, econtext.copy(), "
                 "rcontext, __i18n_domain, __i18n_context, target_language)"
             ) +
-            template("econtext.update(rcontext)")
+            template("econtext.update(rcontext)") +
+            cleanup
         )
 
     def visit_Repeat(self, node):
